@@ -35,6 +35,7 @@ pub fn corrupt(w: &mut World, a: PubAnswer) -> PubAnswer {
                                 address: w.addr_pool.first().cloned().unwrap_or_default(),
                                 value: Value::new(),
                                 datum: None,
+                                script: None,
                             },
                         )
                     }
